@@ -26,7 +26,9 @@ PROPERTY = "C01"
 MODEL_TARGETS = ["Model/AccDedup.vo", "Model/AccWeave.vo", "Model/AccRules.vo"]
 RULE = ("functions in lowering form as for C07 (1-2 accelerators x 1-3 fields, setup+launch+await triples, scf.for / "
         "scf.if nested to depth 3, calls with/without accfg.effects<none>, loop-derived arithmetic), plus if/else "
-        "followed by a setup (hoisting), loops alternating between configurations, and the functions of "
+        "followed by a setup (hoisting), scf.if ops that also yield an i32 used by the following setup, loops "
+        "alternating between configurations (every program with a loop is run with 0, 1, 2, 3 and a random number "
+        "of iterations), and the functions of "
         "tests/filecheck/transforms/acc-dedup.mlir; the real accfg-trace-states then accfg-dedup are run; L1 cases = "
         "individual recorded rewrites (non-trivial by construction: the IR changed), L2 cases = (program, runtime "
         "input) pairs; distinct = distinct (pattern, IR before) / (program text, input)")
@@ -73,6 +75,30 @@ func.func @f(%x : i32, %y : i32, %z : i32, %c : i1, %lb : index, %ub : index, %s
   func.return
 }
 """
+# F22b (audit): the scf.if also yields an i32 and the setup right behind it uses that result; the setup must
+# stay where it is (the un-repaired pattern cloned it into the scf.if that defines its operand)
+IFRES = """
+func.func @f(%x : i32, %y : i32, %c : i1) {
+  %s0 = accfg.setup "acc0" to ("A" = %x : i32, "B" = %y : i32) : !accfg.state<"acc0">
+  %t0 = "accfg.launch"(%s0) <{param_names = [], accelerator = "acc0"}> : (!accfg.state<"acc0">) -> !accfg.token<"acc0">
+  "accfg.await"(%t0) : (!accfg.token<"acc0">) -> ()
+  %r = scf.if %c -> (i32) {
+    %s1 = accfg.setup "acc0" to ("A" = %y : i32, "B" = %y : i32) : !accfg.state<"acc0">
+    %t1 = "accfg.launch"(%s1) <{param_names = [], accelerator = "acc0"}> : (!accfg.state<"acc0">) -> !accfg.token<"acc0">
+    "accfg.await"(%t1) : (!accfg.token<"acc0">) -> ()
+    scf.yield %x : i32
+  } else {
+    %s2 = accfg.setup "acc0" to ("A" = %x : i32, "B" = %x : i32) : !accfg.state<"acc0">
+    %t2 = "accfg.launch"(%s2) <{param_names = [], accelerator = "acc0"}> : (!accfg.state<"acc0">) -> !accfg.token<"acc0">
+    "accfg.await"(%t2) : (!accfg.token<"acc0">) -> ()
+    scf.yield %y : i32
+  }
+  %s3 = accfg.setup "acc0" to ("A" = %r : i32, "B" = %y : i32) : !accfg.state<"acc0">
+  %t3 = "accfg.launch"(%s3) <{param_names = [], accelerator = "acc0"}> : (!accfg.state<"acc0">) -> !accfg.token<"acc0">
+  "accfg.await"(%t3) : (!accfg.token<"acc0">) -> ()
+  func.return
+}
+"""
 EXTRA_INFO = {"params": [("%x", "i32", "val"), ("%y", "i32", "val"), ("%z", "i32", "val"), ("%c", "i1", "cond"),
                          ("%lb", "index", "lb"), ("%ub", "index", "ub"), ("%st", "index", "step")], "loops": 1, "ifs": 1}
 
@@ -103,20 +129,30 @@ def _cfg(i):
         c.n_accs = 1
         c.max_fields = 2
         c.n_vals = 2       # few values: many redundant fields
+    if i % 5 == 4:
+        c.p_if = 0.35      # scf.if ops that also yield an i32 which the following setup uses (F22b)
+        c.p_if_result = 0.6
     return c
+
+
+def _loop_inputs(rng, info):
+    """one random input + trip counts 0, 1, 2, 3 for every loop (PullSetupOpsOutOfLoops has no theorem: every
+    program with a loop is run with zero, one, two and several iterations)"""
+    ins = [accir.gen_inputs(rng, info)]
+    for sty in ("zero", "one", "two", "many") if info.get("loops") else ("zero",):
+        ins.append(accir.gen_inputs(rng, info, sty))
+    return ins
 
 
 def _programs(ctx, n, tag, want_steps):
     """yield (text, fn, inputs, Staged)"""
     out = []
     st = AC.Staged(EXTRA, want_steps=want_steps)
-    out.append((EXTRA, "f", [accir.gen_inputs(ctx.rng, EXTRA_INFO) for _ in range(4)], st))
+    out.append((EXTRA, "f", _loop_inputs(ctx.rng, EXTRA_INFO) + [accir.gen_inputs(ctx.rng, EXTRA_INFO)], st))
+    out.append((IFRES, "f", [[7, 9, 0], [7, 9, 1]], AC.Staged(IFRES, want_steps=want_steps)))
     for i in range(n):
         text, info = accir.gen_module(ctx.rng, _cfg(i))
-        ins = [accir.gen_inputs(ctx.rng, info) for _ in range(1)]
-        ins.append(accir.gen_inputs(ctx.rng, info, "zero"))
-        ins.append(accir.gen_inputs(ctx.rng, info, "many"))
-        out.append((text, "f", ins, AC.Staged(text, want_steps=want_steps)))
+        out.append((text, "f", _loop_inputs(ctx.rng, info), AC.Staged(text, want_steps=want_steps)))
     return out
 
 
